@@ -3,8 +3,9 @@
 //! `HttpProcessors`) and prints one token per packet.  Line grammar: see coq/Extract/EC09.v.
 use hnv_common::*;
 use huginn_net_http::http::Version;
-use huginn_net_http::http_process::{process_http_ipv4, FlowKey, HttpProcessors, TcpFlow};
+use huginn_net_http::http_process::{process_http_ipv4, process_http_ipv6, FlowKey, HttpProcessors, TcpFlow};
 use pnet::packet::ipv4::Ipv4Packet;
+use pnet::packet::ipv6::Ipv6Packet;
 use ttl_cache::TtlCache;
 
 #[derive(Clone, Debug)]
@@ -20,23 +21,39 @@ fn parse_ev(t: &str) -> Ev {
          seq: p[2].parse().unwrap(), pay: unhex_or_dash(p[3]) }
 }
 
-/// IPv4 + TCP image of an event: connection n is 10.0.1.n:40000+n -> 10.0.2.1:80
-fn packet(e: &Ev) -> Vec<u8> {
-    let cip = [10u8, 0, 1, e.conn as u8];
-    let sip = [10u8, 0, 2, 1];
+/// wire image of an event (must agree with `wire` in coq/Model/HttpFlow.v):
+///   conn n < 100          IPv4  10.0.1.n:40000+n -> 10.0.2.1:80
+///   conn 100 <= n < 150   IPv4  10.0.2.1:40000+n -> 10.0.2.1:80   (same address, endpoints differ by port only)
+///   conn 150 <= n < 200   IPv6  [::1]:40000+n    -> [::1]:80       (loopback, same address)
+/// returns (is_ipv6, packet bytes)
+fn packet(e: &Ev) -> (bool, Vec<u8>) {
     let cport = (40000 + e.conn) as u16;
-    let (src, dst, sp, dp) = if e.client { (cip, sip, cport, 80u16) } else { (sip, cip, 80u16, cport) };
-    let total = 40 + e.pay.len();
-    let mut b = Vec::with_capacity(total);
-    b.extend_from_slice(&[0x45, 0, (total >> 8) as u8, total as u8, 0, 1, 0x40, 0, 64, 6, 0, 0]);
-    b.extend_from_slice(&src); b.extend_from_slice(&dst);
-    b.extend_from_slice(&sp.to_be_bytes()); b.extend_from_slice(&dp.to_be_bytes());
-    b.extend_from_slice(&e.seq.to_be_bytes()); b.extend_from_slice(&[0, 0, 0, 0]);
+    let (sp, dp) = if e.client { (cport, 80u16) } else { (80u16, cport) };
+    let mut tcp = Vec::with_capacity(20 + e.pay.len());
+    tcp.extend_from_slice(&sp.to_be_bytes()); tcp.extend_from_slice(&dp.to_be_bytes());
+    tcp.extend_from_slice(&e.seq.to_be_bytes()); tcp.extend_from_slice(&[0, 0, 0, 0]);
     let mut fl = 0u8;
     for c in e.flags.chars() { fl |= match c { 'F' => 1, 'S' => 2, 'R' => 4, 'P' => 8, 'A' => 16, _ => 0 }; }
-    b.extend_from_slice(&[0x50, fl, 0xff, 0xff, 0, 0, 0, 0]);
-    b.extend_from_slice(&e.pay);
-    b
+    tcp.extend_from_slice(&[0x50, fl, 0xff, 0xff, 0, 0, 0, 0]);
+    tcp.extend_from_slice(&e.pay);
+    if e.conn >= 150 {
+        let lo = { let mut a = [0u8; 16]; a[15] = 1; a };
+        let mut b = Vec::with_capacity(40 + tcp.len());
+        b.extend_from_slice(&[0x60, 0, 0, 0, (tcp.len() >> 8) as u8, tcp.len() as u8, 6, 64]);
+        b.extend_from_slice(&lo); b.extend_from_slice(&lo);
+        b.extend(tcp);
+        (true, b)
+    } else {
+        let sip = [10u8, 0, 2, 1];
+        let cip = if e.conn >= 100 { sip } else { [10u8, 0, 1, e.conn as u8] };
+        let (src, dst) = if e.client { (cip, sip) } else { (sip, cip) };
+        let total = 20 + tcp.len();
+        let mut b = Vec::with_capacity(total);
+        b.extend_from_slice(&[0x45, 0, (total >> 8) as u8, total as u8, 0, 1, 0x40, 0, 64, 6, 0, 0]);
+        b.extend_from_slice(&src); b.extend_from_slice(&dst);
+        b.extend(tcp);
+        (false, b)
+    }
 }
 
 fn render_headers(hs: &[huginn_net_http::http_common::HttpHeader]) -> String {
@@ -52,9 +69,10 @@ fn run(line: &str) -> String {
     let mut outs = Vec::new();
     for t in &toks[1..] {
         let e = parse_ev(t);
-        let buf = packet(&e);
-        let pkt = Ipv4Packet::new(&buf).unwrap();
-        let tok = match process_http_ipv4(&pkt, &mut flows, &procs) {
+        let (v6, buf) = packet(&e);
+        let res = if v6 { process_http_ipv6(&Ipv6Packet::new(&buf).unwrap(), &mut flows, &procs) }
+                  else { process_http_ipv4(&Ipv4Packet::new(&buf).unwrap(), &mut flows, &procs) };
+        let tok = match res {
             Err(_) => "ERR".to_string(),
             Ok(p) => match (p.http_request, p.http_response) {
                 (None, None) => "-".to_string(),
@@ -76,6 +94,15 @@ const METHODS: &[&str] = &["GET", "POST", "PUT", "DELETE", "HEAD", "OPTIONS", "P
 const REQ_HDRS: &[&str] = &["Host", "User-Agent", "Accept", "Accept-Language", "Accept-Encoding", "Connection", "X-Id", "Content-Length", "Content-Type", "Cache-Control", "DNT", "Upgrade-Insecure-Requests"];
 const RESP_HDRS: &[&str] = &["Server", "Date", "Content-Type", "Content-Length", "Connection", "Vary", "ETag", "X-Cache", "Accept-Ranges", "Last-Modified", "Keep-Alive"];
 const WORDS: &[&str] = &["a", "example.com", "Mozilla/5.0 (X11; Linux x86_64)", "text/html,application/xhtml+xml", "en-US,en;q=0.9", "gzip, deflate", "keep-alive", "close", "42", "nginx/1.18.0", "Apache", "max-age=0", "1", "bytes", "Tue, 01 Jan 2030 00:00:00 GMT", "x:y", ""];
+
+/// connection number: ~15% of the connections have both endpoints on ONE address (100..149 IPv4 own address,
+/// 150..199 IPv6 loopback); `not` keeps two connections of one trace apart
+fn conn_id(r: &mut Rng, not: u32) -> u32 {
+    loop {
+        let id = if r.chance(3, 20) { if r.chance(1, 2) { 100 + r.below(50) as u32 } else { 150 + r.below(50) as u32 } } else { 1 + r.below(3) as u32 };
+        if id != not { return id; }
+    }
+}
 
 fn token(r: &mut Rng) -> String { let n = r.range(1, 6); (0..n).map(|_| (b'a' + r.below(26) as u8) as char).collect() }
 
@@ -193,7 +220,7 @@ fn gen(r: &mut Rng, tier: &Tier, out: &mut Vec<String>) {
         let pc = partition(r, &req, kc); let ps = partition(r, &resp, ks);
         let isn_mode_c = match i % 8 { 0 | 1 | 2 => 0, 3 => 1, 4 | 5 => 2, 6 => 3, _ => 4 };
         let isn_mode_s = match (i / 8) % 6 { 0 | 1 | 2 => 0, 3 => 2, 4 => 3, _ => 4 };
-        let c = Conn { id: 1 + r.below(3) as u32, cisn: isn_for(r, req.len(), isn_mode_c), sisn: isn_for(r, resp.len(), isn_mode_s), req: pc, resp: ps };
+        let c = Conn { id: conn_id(r, 0), cisn: isn_for(r, req.len(), isn_mode_c), sisn: isn_for(r, resp.len(), isn_mode_s), req: pc, resp: ps };
         let mut oc: Vec<usize> = (0..c.req.len()).collect(); let mut os: Vec<usize> = (0..c.resp.len()).collect();
         let kind = r.below(10);
         match kind {
@@ -223,7 +250,8 @@ fn gen(r: &mut Rng, tier: &Tier, out: &mut Vec<String>) {
     let n2 = tier.scale(300, 5000);
     for _ in 0..n2 {
         let mut all: Vec<Vec<Ev>> = Vec::new();
-        for id in [1u32, 2u32] {
+        let id_a = conn_id(r, 0); let id_b = conn_id(r, id_a);
+        for id in [id_a, id_b] {
             let req = gen_request(r); let resp = gen_response(r);
             let (kc, ks) = (r.range(1, 4) as usize, r.range(1, 4) as usize);
             let (m1, m2) = (r.below(5), r.below(5));
@@ -238,12 +266,33 @@ fn gen(r: &mut Rng, tier: &Tier, out: &mut Vec<String>) {
         let cap = match r.below(6) { 0 => 1, 1 => 0, _ => 1000 };
         out.push(line(cap, &evs));
     }
+    // ---- stream 1c: same-address connections (endpoints differ by port only), plain in-order exchanges ----
+    // IPv4 own address (100..149) and IPv6 loopback (150..199), alone and interleaved with a distinct-address connection
+    for i in 0..tier.scale(60, 600) {
+        let id = if i % 2 == 0 { 100 + r.below(50) as u32 } else { 150 + r.below(50) as u32 };
+        let req = gen_request(r); let resp = gen_response(r);
+        let (kc, ks) = (r.range(1, 4) as usize, r.range(1, 4) as usize);
+        let c = Conn { id, cisn: r.below(1 << 31) as u32, sisn: r.below(1 << 31) as u32, req: partition(r, &req, kc), resp: partition(r, &resp, ks) };
+        let oc: Vec<usize> = (0..c.req.len()).collect(); let os: Vec<usize> = (0..c.resp.len()).collect();
+        let il = r.below(3);
+        let evs = conn_events(r, &c, &oc, &os, il);
+        if i % 3 == 0 {
+            let req2 = gen_request(r); let resp2 = gen_response(r);
+            let c2 = Conn { id: 1 + r.below(3) as u32, cisn: r.below(1 << 31) as u32, sisn: r.below(1 << 31) as u32, req: partition(r, &req2, 2), resp: partition(r, &resp2, 2) };
+            let o2c: Vec<usize> = (0..c2.req.len()).collect(); let o2s: Vec<usize> = (0..c2.resp.len()).collect();
+            let evs2 = conn_events(r, &c2, &o2c, &o2s, 1);
+            let both = interleave(r, evs, evs2, 1);
+            out.push(line(1000, &both));
+        } else {
+            out.push(line(1000, &evs));
+        }
+    }
     // ---- stream 2: malformed / outside the specification's domain ----
     let n3 = tier.scale(300, 4000);
     for _ in 0..n3 {
         let req = gen_request(r); let resp = gen_response(r);
         let (m1, m2) = (r.below(5), r.below(5));
-        let c = Conn { id: 1, cisn: isn_for(r, req.len(), m1), sisn: isn_for(r, resp.len(), m2), req: partition(r, &req, 3), resp: partition(r, &resp, 2) };
+        let c = Conn { id: conn_id(r, 0), cisn: isn_for(r, req.len(), m1), sisn: isn_for(r, resp.len(), m2), req: partition(r, &req, 3), resp: partition(r, &resp, 2) };
         let oc: Vec<usize> = (0..c.req.len()).collect(); let os: Vec<usize> = (0..c.resp.len()).collect();
         let mut evs = conn_events(r, &c, &oc, &os, 1);
         match r.below(8) {
@@ -271,8 +320,10 @@ fn gen(r: &mut Rng, tier: &Tier, out: &mut Vec<String>) {
         let ks: Vec<u32> = if tier.thorough { (0..=(req.len() as u32 + 2)).collect() } else { vec![0, 1, 2, 5, 17, 18, 36, 37, 47, req.len() as u32, req.len() as u32 + 1, req.len() as u32 + 2] };
         let mut isns: Vec<u32> = vec![0, 1_000_000];
         isns.extend(ks.iter().map(|k| 0u32.wrapping_sub(*k)));
-        for isn in isns { for p in &perms {
-            let c = Conn { id: 1, cisn: isn, sisn: 777, req: segs.clone(), resp: vec![(0, resp.clone())] };
+        for (ii, isn) in isns.into_iter().enumerate() { for p in &perms {
+            // every fourth ISN runs on a same-address connection (IPv4 own address / IPv6 loopback alternately)
+            let id = match ii % 8 { 3 => 120, 7 => 170, _ => 1 };
+            let c = Conn { id, cisn: isn, sisn: 777, req: segs.clone(), resp: vec![(0, resp.clone())] };
             let evs = conn_events(r, &c, p, &[0], 0);
             out.push(line(1000, &evs));
         }}
